@@ -77,7 +77,7 @@ def verify(ctext, workdir, name, entry='harness', enforce=None, replace=(), loop
             res.note = 'goto-instrument failed: ' + out[-800:]
             return res
         gb = base + '.b.gb'
-    cmd = ['cbmc', gb] + list(flags)
+    cmd = ['cbmc', gb, '--object-bits', '12'] + list(flags)
     if backend == 'cvc5':
         cmd.append('--cvc5')
     elif backend == 'z3':
